@@ -10,6 +10,7 @@ import (
 	"net/http"
 	"os"
 	"sync"
+	"sync/atomic"
 	"time"
 
 	"github.com/buchgr/bazel-remote/v2/cache"
@@ -62,6 +63,11 @@ type Server struct {
 	Asset    asset.FetchClient
 
 	HTTPErrLog *LogCapture // net/http server ErrorLog (handler panics land here)
+
+	// In-flight accounting of server-side handlers (harness middleware /
+	// interceptors wrapped around the real handlers): started and finished
+	// counts for HTTP requests and gRPC calls.
+	HTTPStarted, HTTPDone, GRPCStarted, GRPCDone atomic.Int64
 
 	httpSrv, rawSrv *http.Server
 	grpcSrv         *grpc.Server
@@ -181,7 +187,7 @@ func StartServer(o ServerOpts) (*Server, error) {
 		h := server.NewHTTPCache(c, DiscardLogger, DiscardLogger, !o.NoHTTPValidate, o.Mangle, false, false, "", "", maxBlob)
 		mux := http.NewServeMux()
 		mux.HandleFunc("/status", h.StatusPageHandler)
-		mux.HandleFunc("/", h.CacheHandler)
+		mux.HandleFunc("/", s.countHTTP(h.CacheHandler))
 		ln, err := net.Listen("tcp", "127.0.0.1:0")
 		if err != nil {
 			return nil, err
@@ -194,7 +200,7 @@ func StartServer(o ServerOpts) (*Server, error) {
 		h := server.NewHTTPCache(c, DiscardLogger, DiscardLogger, false, o.Mangle, false, false, "", "", maxBlob)
 		mux := http.NewServeMux()
 		mux.HandleFunc("/status", h.StatusPageHandler)
-		mux.HandleFunc("/", h.CacheHandler)
+		mux.HandleFunc("/", s.countHTTP(h.CacheHandler))
 		ln, err := net.Listen("tcp", "127.0.0.1:0")
 		if err != nil {
 			return nil, err
@@ -208,7 +214,17 @@ func StartServer(o ServerOpts) (*Server, error) {
 		if err != nil {
 			return nil, err
 		}
-		s.grpcSrv = grpc.NewServer(grpc.MaxRecvMsgSize(64*MiB), grpc.MaxSendMsgSize(64*MiB))
+		s.grpcSrv = grpc.NewServer(grpc.MaxRecvMsgSize(64*MiB), grpc.MaxSendMsgSize(64*MiB),
+			grpc.ChainUnaryInterceptor(func(ctx context.Context, req any, info *grpc.UnaryServerInfo, handler grpc.UnaryHandler) (any, error) {
+				s.GRPCStarted.Add(1)
+				defer s.GRPCDone.Add(1)
+				return handler(ctx, req)
+			}),
+			grpc.ChainStreamInterceptor(func(srv any, ss grpc.ServerStream, info *grpc.StreamServerInfo, handler grpc.StreamHandler) error {
+				s.GRPCStarted.Add(1)
+				defer s.GRPCDone.Add(1)
+				return handler(srv, ss)
+			}))
 		go func() {
 			_ = server.ServeGRPC(ln, s.grpcSrv, !o.NoDepsCheck, o.Mangle, o.AssetAPI, maxBlob, c, DiscardLogger, DiscardLogger)
 		}()
@@ -240,6 +256,52 @@ func StartServer(o ServerOpts) (*Server, error) {
 		}
 	}
 	return s, nil
+}
+
+func (s *Server) countHTTP(h http.HandlerFunc) http.HandlerFunc {
+	return func(w http.ResponseWriter, r *http.Request) {
+		s.HTTPStarted.Add(1)
+		defer s.HTTPDone.Add(1)
+		h(w, r)
+	}
+}
+
+// Inflight is the number of server-side handlers currently running.
+func (s *Server) Inflight() int64 {
+	return (s.HTTPStarted.Load() - s.HTTPDone.Load()) + (s.GRPCStarted.Load() - s.GRPCDone.Load())
+}
+
+// WaitStarted waits (bounded) until the started counter exceeds before.
+func WaitCounterAbove(c *atomic.Int64, before int64, max time.Duration) bool {
+	deadline := time.Now().Add(max)
+	for c.Load() <= before {
+		if time.Now().After(deadline) {
+			return false
+		}
+		time.Sleep(100 * time.Microsecond)
+	}
+	return true
+}
+
+// Settle waits until no handler is in flight and no space is reserved.
+// Returns "ok", or "reserved" when handlers are gone but reservations persist
+// (a persistent-state verdict), or "busy" when handlers never finished.
+func (s *Server) Settle(max time.Duration) string {
+	deadline := time.Now().Add(max)
+	for {
+		inflight := s.Inflight()
+		_, reserved, _, _ := s.Cache.Stats()
+		if inflight == 0 && reserved == 0 {
+			return "ok"
+		}
+		if time.Now().After(deadline) {
+			if inflight != 0 {
+				return "busy"
+			}
+			return "reserved"
+		}
+		time.Sleep(300 * time.Microsecond)
+	}
 }
 
 // Close stops servers and removes the directory if owned.
